@@ -573,7 +573,6 @@ func evmSlot(kv core.KV, addr common.Address, slot common.Hash) []byte {
 	return kv[string(k)]
 }
 
-
 // ---------------------------------------------------------------- blocks, burns, supply
 
 type bankState struct {
